@@ -737,7 +737,8 @@ Fixpoint ehist_ok (c : cfg) (self : N) (g : eng) (ops : list eop) : Prop :=
 Lemma einv_estep : forall c self g o, EInv c g -> Bounded c (g_enf g) -> EInv c (fst (estep c self g o)).
 Proof.
   intros c self g o E B. destruct o as [id addr valid|id|id]; cbn [estep].
-  - apply (einv_core_add c self g id addr valid E B).
+  - destruct (listed (g_tab g) id); [cbn [fst]; exact E|].
+    apply (einv_core_add c self g id addr valid E B).
   - cbn [fst]. apply einv_core_remove, E.
   - cbn [fst]. apply einv_core_remove, E.
 Qed.
@@ -753,7 +754,8 @@ Lemma len_estep : forall c self g o l, EInv c g -> Bounded c (g_enf g) ->
   len (getm (g_enf (fst (estep c self g o))) l) <= len (getm (g_enf g) l) + 1.
 Proof.
   intros c self g o l E B. destruct o as [id addr valid|id|id]; cbn [estep].
-  - apply (einv_core_add c self g id addr valid E B).
+  - destruct (listed (g_tab g) id); [cbn [fst]; lia|].
+    apply (einv_core_add c self g id addr valid E B).
   - cbn [fst]. pose proof (einv_core_remove c g id E) as (_ & _ & L). specialize (L l). lia.
   - cbn [fst]. pose proof (einv_core_remove c g id E) as (_ & _ & L). specialize (L l). lia.
 Qed.
